@@ -226,7 +226,7 @@ class PLSSDesc:
             config=None,
             parse_qq=None,
             source=None,
-            wait_to_parse=False):
+            wait_to_parse=None):
         """
         A 'raw' PLSS description of land. Will be parsed into one or
         more ``Tract`` objects, which are stored in the ``.tracts``
